@@ -614,6 +614,8 @@ def _gen_sx(ctx, rng, cls, big):
         thr = float(srt[-1] + abs(srt[-1]) * 0.01 + 0.01) if rng.random() < 0.5 else float(srt[-1])
     elif k == nvox:
         thr = float(srt[0] - 1.0)
+    elif rng.random() < 0.2:
+        thr = float(srt[-k - 1])              # threshold EQUAL to a voxel's score: that voxel does not exceed it
     else:
         thr = float((srt[-k - 1] + srt[-k]) / 2.0)
     as_files = cls == "sx_files" or rng.random() < 0.15
